@@ -343,7 +343,7 @@ class Ctx:
         return "new"
 
     def write_replay(self, obj, tag="violation"):
-        d = os.path.join(VERIF, "replays")
+        d = os.environ.get("VERIF_REPLAY_DIR") or os.path.join(VERIF, "replays")
         os.makedirs(d, exist_ok=True)
         path = os.path.join(d, "%s_%s_seed%d.json" % (self.pid, tag, self.seed))
         json.dump(obj, open(path, "w"), indent=1, default=str)
@@ -410,7 +410,7 @@ class Ctx:
             "wall_s": round(wall, 2),
             "violations": nviol,
         }
-        d = os.path.join(VERIF, "evidence")
+        d = os.environ.get("VERIF_EVIDENCE_DIR") or os.path.join(VERIF, "evidence")   # (seeded-defect runs write elsewhere)
         os.makedirs(d, exist_ok=True)
         tmp = os.path.join(d, ".%s.json.tmp" % self.pid)
         json.dump(ev, open(tmp, "w"), indent=1, default=str)
